@@ -21,6 +21,7 @@ def c17(run):
     r_file.run_no_remove(run, P)
     r_file.run_raw_packet(run, P)
     r_file.run_load_order(run, P)
+    r_file.run_track_order(run, P)
     run.min_instances('R-FILE-MODE', 14)
     run.min_instances('R-PERSIST', 6)
     run.assumptions = ASSUME_COMMON + ["fopen mode strings are literals (a non-literal mode is counted and not judged)"]
@@ -29,7 +30,7 @@ def c17(run):
         "coap_subscribe.c): decides the structural clauses 'a stream is only read/written if its open mode allows it' and, per "
         "updater, 'only the .tmp copy is written, the real file is never opened truncating, rename() is reached only after a "
         "flush/close of the .tmp stream whose tested result is success'. These are necessary for 'old or new complete state "
-        "after a crash'; restart behaviour and Observe counter values are NOT decided. A record that is only copied into the new file is written back with exactly the variables the read call of that loop filled (R-PERSIST copy-through). No remove()/unlink() is applied to the destination of a function's rename() (one atomic step). The raw request recorded for a dynamically created resource spans header and body (raw packet). No loader that creates resources is reachable after a loader that looks resources up (load order).")
+        "after a crash'; restart behaviour and Observe counter values are NOT decided. A record that is only copied into the new file is written back with exactly the variables the read call of that loop filled (R-PERSIST copy-through). No remove()/unlink() is applied to the destination of a function's rename() (one atomic step). The raw request recorded for a dynamically created resource spans header and body (raw packet). No loader that creates resources is reachable after a loader that looks resources up (load order). The Observe counter is not stepped after it was handed to the tracking call-out (recorded value).")
 
 
 def c13(run):
@@ -40,6 +41,7 @@ def c13(run):
     r_lock.run(run, Pts)
     from rules import r_lockimpl
     r_lockimpl.run(run, Pts)
+    r_lockimpl.run_init_once(run, Pts)
     run.assumptions = ASSUME_COMMON + [
         "paths after a failed re-lock (state F; only possible while coap_cleanup() runs concurrently) carry no obligations",
         "address-taken library functions (layer tables, persistence call-outs, TLS back-end callbacks) are entered with the lock held",
@@ -49,7 +51,7 @@ def c13(run):
         "typestate {U,L,F} balanced on every path of every function in every calling context reached from the public API; (R-LOCK-CALL) "
         "the project's own precondition marker and every function that transitively reaches it are only entered with the lock held, and no "
         "library code calls a locking COAP_API wrapper while locked; (R-LOCK-CB) in_callback increments balance and application callbacks "
-        "run with in_callback>0 or unlocked; (R-LOCK-WAIT) no unbounded wait while locked; (R-LOCK-OWNER) the lock object's owner id and nesting counters are only written by the thread that owns the mutex (inside the two primitives: not after the mutex release, not before the acquisition). Necessary for 'serialised and never deadlocks'.")
+        "run with in_callback>0 or unlocked; (R-LOCK-WAIT) no unbounded wait while locked; (R-LOCK-OWNER) the lock object's owner id and nesting counters are only written by the thread that owns the mutex (inside the two primitives: not after the mutex release, not before the acquisition). Necessary for 'serialised and never deadlocks'. The global lock's mutex is (re)initialised only behind the once-guard of coap_startup() (initialised once).")
 
 
 def c18(run):
@@ -119,7 +121,7 @@ def c12(run):
         "Reference discipline of sessions decided on every path: temporary references are released in the same function (R-REF-TMP); objects "
         "holding a session reference (computed: queue nodes, subscriptions, async entries) release it before they are freed or cleared "
         "(R-REF-HOLD); a server session is never freed without SERVER_SESSION_DEL and NEW is raised once (R-SESS-EVT); function-local owners "
-        "of strings/binaries/optlists/cache keys are disposed of on every path (R-OWN-LOCAL). Necessary for 'live while referenced, everything released'. After a holder's session reference was released the field is overwritten or the holder freed raw on every path (R-REF-HOLD stale); a session made in a function is freed there only after it was added to a session table (R-SESS-HASHED). A function that takes over an object it is handed agrees over all its failure returns on who owns the object afterwards (R-CONSUME-AGREE). Scratch buffers (raw allocations the function itself frees) are released on every path (R-OWN-RAW); a session found by the hash look-up is returned only after last_rx_tx was refreshed (idle accounting). The record that files and finds sessions by its bytes is zeroed as a whole before its fields are set, in its constructor and for every local look-up key (R-SESS-KEY). Per-session finders (computed: coap_find_observer, coap_find_observer_cache_key, coap_find_async_lkd) return only elements whose session field equals the session they were asked for (R-FINDER-KEY).")
+        "of strings/binaries/optlists/cache keys are disposed of on every path (R-OWN-LOCAL). Necessary for 'live while referenced, everything released'. After a holder's session reference was released the field is overwritten or the holder freed raw on every path (R-REF-HOLD stale); a session made in a function is freed there only after it was added to a session table (R-SESS-HASHED). A function that takes over an object it is handed agrees over all its failure returns on who owns the object afterwards (R-CONSUME-AGREE). Scratch buffers (raw allocations the function itself frees) are released on every path (R-OWN-RAW); a session found by the hash look-up is returned only after last_rx_tx was refreshed (idle accounting). The record that files and finds sessions by its bytes is zeroed as a whole before its fields are set, in its constructor and for every local look-up key (R-SESS-KEY). Per-session finders (computed: coap_find_observer, coap_find_observer_cache_key, coap_find_async_lkd) return only elements whose session field equals the session they were asked for (R-FINDER-KEY). Nothing dereferences a holder's session pointer between the release of its reference and the overwrite / free (R-REF-HOLD stale, use).")
 
 
 CODEC_UNITS = ('coap_pdu.c', 'coap_option.c')
@@ -147,6 +149,7 @@ def c01(run):
     r_fixup.run_capacity(run, P)
     from rules import r_width as _rw
     _rw.run_f(run, P)
+    _rw.run_g(run, P)
     from rules import r_stalecopy
     r_stalecopy.run_scalar(run, P)       # no stale copy of the running option number across an appending call
     run.min_instances('R-CODEC-TAB', 30)
@@ -156,7 +159,7 @@ def c01(run):
         "Writer/reader table agreement decided statically: the thresholds, arm offsets and nibble splits of every option/TCP-length/token-length "
         "encoder and decoder equal the RFC 7252/8323/8974 tables and each other, the decoder's option-number bound as folded by the compiler equals the "
         "builder's (R-CODEC-TAB); no store passes through a narrowing explicit cast that can lose bits (R-WIDTH); the builder never uses a buffer "
-        "pointer across a reallocation and moves payload pointer and size together (R-FIXUP). Necessary conditions of the round trip. Every ordering comparison against the extended-token bias macros cuts the application token lengths exactly at 13 / 269 (R-CODEC-TAB 7, by enumeration over all token lengths). The largest token the library accepts is the RFC 8974 maximum as the compiler folded it (8); a stored payload marker is followed by payload of known non-zero length (9); an editor advances used_size only after coap_opt_encode() succeeded (R-FIXUP). After a removal max_opt comes from the options that remain; coap_pdu_resize() re-bases data against the old token pointer; the stream frame size adds the token-extension bytes. coap_pdu_check_resize() answers non-zero only with alloc_size >= size known or after growing to a size known >= size (capacity contract); the decoder's option-number bound separates exactly the numbers above 65535, whatever its spelling (enumerated); no right shift discards every bit of an explicitly narrowed value (R-WIDTH f).")
+        "pointer across a reallocation and moves payload pointer and size together (R-FIXUP). Necessary conditions of the round trip. Every ordering comparison against the extended-token bias macros cuts the application token lengths exactly at 13 / 269 (R-CODEC-TAB 7, by enumeration over all token lengths). The largest token the library accepts is the RFC 8974 maximum as the compiler folded it (8); a stored payload marker is followed by payload of known non-zero length (9); an editor advances used_size only after coap_opt_encode() succeeded (R-FIXUP). After a removal max_opt comes from the options that remain; coap_pdu_resize() re-bases data against the old token pointer; the stream frame size adds the token-extension bytes. coap_pdu_check_resize() answers non-zero only with alloc_size >= size known or after growing to a size known >= size (capacity contract); the decoder's option-number bound separates exactly the numbers above 65535, whatever its spelling (enumerated); no right shift discards every bit of an explicitly narrowed value (R-WIDTH f). A value implicitly narrowed into a local of the codec units fits whenever the interval analysis can bound it (R-WIDTH g).")
 
 
 def c03(run):
@@ -164,6 +167,7 @@ def c03(run):
     P = run.prog('rel')
     r_width.run_b(run, P)
     r_width.run_d(run, P)
+    r_width.run_g(run, P)
     r_codec.run(run, P)
     r_codec.run_toklen(run, P)
     r_codec.run_tokext(run, P)
@@ -181,7 +185,7 @@ def c03(run):
         "16-bit delta / running number with wrap-guard or range-guard discharge, R-WIDTH); decoder tables agree with the encoder's and the RFCs "
         "(R-CODEC-TAB); every reject condition of the frozen table (nibble 15, TKL 15, token longer than message, marker without payload, "
         "non-empty Empty, option-number overflow, runt) exists and every path through its rejecting arm returns 0, and coap_dispatch is reached only "
-        "after successful parser calls (R-PARSE-GATE). The accept flag a decoding function collects over several checks is never raised again once it is 0 (R-PARSE-GATE verdict); token-length thresholds cut at 13 / 269 (R-CODEC-TAB 7). A stored payload marker is followed by payload of known non-zero length (R-CODEC-TAB 9). An argument implicitly narrowed to an 8-/16-bit parameter in the decoding units is proven to fit (R-WIDTH d: the per-option limits see the full option length). The option-number bound of next_option_safe() is decided by enumeration over boundary pairs, and its overflow-safe spelling `delta > MAX - *max_opt` is recognised by the wrap guard and the reject table.")
+        "after successful parser calls (R-PARSE-GATE). The accept flag a decoding function collects over several checks is never raised again once it is 0 (R-PARSE-GATE verdict); token-length thresholds cut at 13 / 269 (R-CODEC-TAB 7). A stored payload marker is followed by payload of known non-zero length (R-CODEC-TAB 9). An argument implicitly narrowed to an 8-/16-bit parameter in the decoding units is proven to fit (R-WIDTH d: the per-option limits see the full option length). The option-number bound of next_option_safe() is decided by enumeration over boundary pairs, and its overflow-safe spelling `delta > MAX - *max_opt` is recognised by the wrap guard and the reject table. A value implicitly narrowed into a local of the codec units fits whenever it can be bounded (R-WIDTH g: the decoded extended token length).")
 
 
 def c04(run):
@@ -196,6 +200,7 @@ def c04(run):
     r_fixup.run_capacity(run, P)
     from rules import r_width as _rw
     _rw.run_f(run, P)
+    _rw.run_g(run, P)
     from rules import r_stalecopy
     r_stalecopy.run_scalar(run, P)
     from rules import r_codec
@@ -210,7 +215,7 @@ def c04(run):
     return run.finish(
         "In-place editors (coap_update_token, coap_remove_option, coap_insert_option, coap_update_option and the codec units): every adjustment of "
         "used_size is matched by the same adjustment of a non-NULL payload pointer and equals the memmove distance, no pointer into the buffer is used "
-        "after a call that may reallocate it (R-FIXUP), and no length is stored through a narrowing explicit cast that can truncate it (R-WIDTH). Token-length thresholds are applied so that they cut the application token lengths at 13 / 269 (R-CODEC-TAB 7). An editor advances used_size only after coap_opt_encode() succeeded (R-FIXUP, bytes before bookkeeping). After a removal max_opt is recomputed from the options that remain (R-FIXUP max_opt). coap_pdu_check_resize() answers non-zero only with the capacity known (capacity contract); no right shift discards every bit of an explicitly narrowed value (R-WIDTH f: the high delta byte written by coap_remove_option()).")
+        "after a call that may reallocate it (R-FIXUP), and no length is stored through a narrowing explicit cast that can truncate it (R-WIDTH). Token-length thresholds are applied so that they cut the application token lengths at 13 / 269 (R-CODEC-TAB 7). An editor advances used_size only after coap_opt_encode() succeeded (R-FIXUP, bytes before bookkeeping). After a removal max_opt is recomputed from the options that remain (R-FIXUP max_opt). coap_pdu_check_resize() answers non-zero only with the capacity known (capacity contract); no right shift discards every bit of an explicitly narrowed value (R-WIDTH f: the high delta byte written by coap_remove_option()). Implicit narrowing into a codec local fits when boundable (R-WIDTH g).")
 
 
 def c05(run):
@@ -222,6 +227,7 @@ def c05(run):
     r_stream.run_needed_len(run, P)
     r_stream.run_unit_complete(run, P)
     r_stream.run_phase_local(run, P)
+    r_stream.run_empty_unit(run, P)
     r_stream.run_cap(run, P)
     r_stream.run_cap_own(run, P)
     run.min_instances('R-STREAM-ADV', 4)
@@ -232,7 +238,7 @@ def c05(run):
         "Stream readers (TCP three-state reader, WebSocket frame and handshake readers): every transfer of n bytes to buffer+counter is followed by "
         "an advance of that counter by the same n or a reset, on every path (R-STREAM-ADV); a length declared by the peer reaches an allocation/copy/"
         "read size only after the non-exceeding arm of a comparison with a maximum, the exceeding arm reaches a closing call, and a full handshake "
-        "line buffer is rejected (R-STREAM-CAP). Necessary for 'same messages however the stream is cut' and 'over-long closes the session'. The receive limit, once our own maximum is set, is computed without any session field the peer can set (R-STREAM-CAP own limit; peer-settable fields computed from the assignments of decoded option values). A position is never SET to the size of the piece just stored unless it is known 0, and the local that is compared as needed length with a progress counter is not increased after that comparison let the function carry on (R-STREAM-ADV). The header is handed to the size function with a length only under a condition that mentions every variable of that length (unit complete). A local that a reader assigns in its header phase and stores into the session record is not read on a path that skipped that phase (phase-local value).")
+        "line buffer is rejected (R-STREAM-CAP). Necessary for 'same messages however the stream is cut' and 'over-long closes the session'. The receive limit, once our own maximum is set, is computed without any session field the peer can set (R-STREAM-CAP own limit; peer-settable fields computed from the assignments of decoded option values). A position is never SET to the size of the piece just stored unless it is known 0, and the local that is compared as needed length with a progress counter is not increased after that comparison let the function carry on (R-STREAM-ADV). The header is handed to the size function with a length only under a condition that mentions every variable of that length (unit complete). A local that a reader assigns in its header phase and stores into the session record is not read on a path that skipped that phase (phase-local value). A message created with nothing left to read is dispatched before the reader returns (empty unit).")
 
 
 def c16(run):
@@ -245,6 +251,8 @@ def c16(run):
     r_uriclass.run_hexcase(run, P)
     r_uriclass.run_dot_root(run, P)
     r_uriclass.run_default_ports(run, P)
+    from rules import r_codec
+    r_codec.run_opt_cursor(run, P)
     from rules import r_sizefill
     r_sizefill.run(run, P, units=('coap_uri.c',))
     r_sizefill.run_separator(run, P, units=('coap_uri.c',))
@@ -259,7 +267,7 @@ def c16(run):
         "coap_host_is_unix_domain) is proven inside the delimited bytes by a cursor/remaining-length analysis, and decode_segment is only called "
         "after a tested check_segment on the same arguments (R-LEN-READ); the unescaped character classes, evaluated for all 256 byte values on "
         "the extracted expression, exclude the separators the reconstruction writes and '%' (R-URI-CLASS, necessary for injectivity); optlist "
-        "constructors are NULL-checked (R-ALLOC-NULL). The measuring and the filling loop of the reconstruction agree for all 256 byte values (R-SIZE-FILL); a port number cannot leave its digit loop through the value guard without being rejected by the range check (R-LEN-READ accumulator guard). Equality tests against hex letters come in both cases (R-URI-CLASS hex case). The position from which a `..` segment may delete is behind the last element the caller's chain already held (dot-dot stops at the root). Every scheme is compared, in coap_uri_into_optlist(), with its own default port of coap_uri_scheme[] (default ports agree).")
+        "constructors are NULL-checked (R-ALLOC-NULL). The measuring and the filling loop of the reconstruction agree for all 256 byte values (R-SIZE-FILL); a port number cannot leave its digit loop through the value guard without being rejected by the range check (R-LEN-READ accumulator guard). Equality tests against hex letters come in both cases (R-URI-CLASS hex case). The position from which a `..` segment may delete is behind the last element the caller's chain already held (dot-dot stops at the root). Every scheme is compared, in coap_uri_into_optlist(), with its own default port of coap_uri_scheme[] (default ports agree). A cursor over encoded options is advanced by coap_opt_size() only (R-CODEC-TAB 10).")
 
 
 def c15(run):
@@ -275,6 +283,8 @@ def c15(run):
     r_ssn.run_ctx_siblings(run, P)
     from rules import r_width
     r_width.run_e(run, P)
+    from rules import r_oscsplit
+    r_oscsplit.run_flag_reach(run, P)    # the flag that decides 'new Partial IV or the request's nonce' is set before it is tested: notifications never reuse the request nonce
     run.min_instances('R-RANGE', 4)
     run.min_instances('R-REPLAY-OWN', 8)
     run.min_instances('R-REPLAY-RB', 5)
@@ -286,7 +296,7 @@ def c15(run):
         "(R-REPLAY-RB); every accepted request passed a successful validation (R-REPLAY-MUST); the sender sequence number is only stepped by +1, "
         "advanced exactly once between its use as partial IV and the successful return, and compared with the persisted watermark such that the "
         "skipping arm implies used+1 <= next_seq while the other arm advances next_seq and hands it to the save callback (R-SSN-ORDER). Seven genuine defects of the current tree are "
-        "listed in known_findings.txt and re-observed on every run. A freshly built Echo challenge is protected with its own Partial IV on every path (R-SSN-ORDER Echo). Every setting the configuration constructor takes from coap_oscore_conf_t is assigned by the copying (Appendix B.2) constructor (constructors agree). A stored difference of 64-bit counters (the distance behind the newest sequence number) keeps its width until a comparison has judged it (R-WIDTH e).")
+        "listed in known_findings.txt and re-observed on every run. A freshly built Echo challenge is protected with its own Partial IV on every path (R-SSN-ORDER Echo). Every setting the configuration constructor takes from coap_oscore_conf_t is assigned by the copying (Appendix B.2) constructor (constructors agree). A stored difference of 64-bit counters (the distance behind the newest sequence number) keeps its width until a comparison has judged it (R-WIDTH e). A steering flag of the protect function is reached at its test by an assignment other than its initialiser (R-OSC-SPLIT flags: notifications get their own Partial IV).")
 
 
 def c08(run):
@@ -297,6 +307,7 @@ def c08(run):
     r_cnt.run_counted_queued(run, P)
     r_cnt.run_reset_drains(run, P)
     r_cnt.run_flush_order(run, P)
+    r_cnt.run_scan_head(run, P)
     from rules import r_delayq
     r_delayq.run(run, P)                 # if the session fails, each held Confirmable is reported by a NACK
     from rules import r_midzero
@@ -310,7 +321,7 @@ def c08(run):
         "hand (reached through a coap_queue_t* or with one known non-NULL); every increment is reached only on the below-the-limit arm of a "
         "comparison with NSTART, and the two functions that first transmit an unreliable Confirmable count it; conversely a node that "
         "coap_remove_from_queue() hands out and that is then deleted has been un-counted on that path (or was no Confirmable / the count is 0). "
-        "Necessary for the NSTART bound and for held messages going out when earlier exchanges finish. A flush of the delay queue that is controlled by a test of con_active is dominated by the decrement under the same test (h). No test of a coap_mid_t typed value separates id 0 from the other ids (R-MID-ZERO).")
+        "Necessary for the NSTART bound and for held messages going out when earlier exchanges finish. A flush of the delay queue that is controlled by a test of con_active is dominated by the decrement under the same test (h). No test of a coap_mid_t typed value separates id 0 from the other ids (R-MID-ZERO). The unlink-with-predecessor scan that drains a session's messages starts behind a head known not to belong to the session (i).")
 
 
 def c06(run):
@@ -326,6 +337,7 @@ def c06(run):
     r_timer.run(run, P)
     r_timer.run_base(run, P)
     r_cnt.run_flush_order(run, P)        # a held Confirmable is released when the slot in front of it is freed
+    r_cnt.run_reset_drains(run, P)       # a reset of the in-flight count only together with draining the queue: otherwise the give-up path skips the flush
     from rules import r_midzero
     r_midzero.run(run, P)
     run.min_instances('R-OWN-NODE', 8)
@@ -336,7 +348,7 @@ def c06(run):
         "Send-queue node typestate on every path of every function handling coap_queue_t*: a node has exactly one owner (held / in the send "
         "queue / in a delay queue / deleted), is never deleted while linked in a delay queue, never used after deletion and never lost "
         "(R-OWN-NODE) - so after its single outcome a message cannot be sent again; in coap_retransmit the retransmission is gated by "
-        "retransmit_cnt < max_retransmit with exactly one increment, and a given-up Confirmable is NACKed exactly once before deletion (R-RETRANS). Whoever arms the context's timerfd has recorded the deadline it arms it for (R-TIMER-REC). No test of a coap_mid_t typed value separates id 0 from the other ids (R-MID-ZERO). The base time of the send queue is set only with the queue known empty, or advanced by the adjuster that takes the same delta off the queued deadlines (queue base).")
+        "retransmit_cnt < max_retransmit with exactly one increment, and a given-up Confirmable is NACKed exactly once before deletion (R-RETRANS). Whoever arms the context's timerfd has recorded the deadline it arms it for (R-TIMER-REC). No test of a coap_mid_t typed value separates id 0 from the other ids (R-MID-ZERO). The base time of the send queue is set only with the queue known empty, or advanced by the adjuster that takes the same delta off the queued deadlines (queue base). A reset of con_active is followed by draining the session's queued messages (g).")
 
 
 REPLY_FUNCS = ('handle_request', 'coap_dispatch', 'check_token_size', 'hnd_get_wellknown_lkd', 'coap_new_error_response', 'coap_send_ack_lkd',
@@ -355,12 +367,15 @@ def c10(run):
     r_reply.run_helper_verdict(run, P)
     from rules import r_restart
     r_restart.run(run, P)
+    from rules import r_uriclass
+    r_uriclass.run(run, P)               # the look-up key handle_request builds from the Uri-Path options is injective: the handler registered for a path runs for that path only
     from rules import r_suppress
     r_suppress.run(run, P)
     from rules import r_ownnode
     r_ownnode.run_waitack(run, P)        # a queued Non-confirmable reply is flagged for exactly one (delayed) transmission
     from rules import r_pairargs
     r_pairargs.run(run, P)               # the token echoed in a reply is copied with the length of the token it is copied from
+    r_pairargs.run_token_identity(run, P)
     run.min_instances('R-OWN-PDU', 5)
     run.min_instances('R-REPLY-ONCE', 5)
     run.assumptions = ASSUME_COMMON + ["the reply code table over the product of request features is NOT decided (a rule pinning the resp = 4.xx assignments would be a frozen "
@@ -372,7 +387,7 @@ def c10(run):
         "coap_send_internal; R-OWN-PDU), and no path of coap_dispatch / handle_request passes two emission points other than the Empty-ACK-then-"
         "response pattern (R-REPLY-ONCE). Suppression table: every per-resource multicast suppression flag is paired with the response class its public "
         "name states, on the arm its polarity (ENA/DIS) demands, and leads to a drop; the flags are distinct bits; the No-Response bitmap is indexed "
-        "with class-1 (R-SUPPRESS-TAB). A token is copied into a reply with the length of the bytes it is copied from (R-PAIR-ARGS, library-wide). The unknown-resource handler is selected only after the request path was compared with the well-known URI or the HANDLE_WELLKNOWN_CORE flag found set (resolution order). A static helper that the dispatcher calls in a condition and that emits a reply returns 0 on every path that passed the emission (helper verdict). A scan that is restarted inside its own loop sets its loop-carried locals back to their initial values (R-RESTART-STATE: last_number of the repeated-option check).")
+        "with class-1 (R-SUPPRESS-TAB). A token is copied into a reply with the length of the bytes it is copied from (R-PAIR-ARGS, library-wide). The unknown-resource handler is selected only after the request path was compared with the well-known URI or the HANDLE_WELLKNOWN_CORE flag found set (resolution order). A static helper that the dispatcher calls in a condition and that emits a reply returns 0 on every path that passed the emission (helper verdict). A scan that is restarted inside its own loop sets its loop-carried locals back to their initial values (R-RESTART-STATE: last_number of the repeated-option check). The look-up key built from Uri-Path is injective (R-URI-CLASS); token identity is decided on actual_token (R-PAIR-ARGS).")
 
 
 def c09(run):
@@ -385,9 +400,11 @@ def c09(run):
     from rules import r_bodydone
     r_bodydone.run(run, P)
     r_bodydone.run_token_restore(run, P)
+    r_bodydone.run_crcv_complement(run, P)
     from rules import r_blkmore
     r_blkmore.run(run, P)
     r_blkmore.run_size_sync(run, P)
+    r_blkmore.run_size_field(run, P)
     from rules import r_freshlabel
     r_freshlabel.run(run, P)
     run.min_instances('R-RELEASE-ONCE', 5)
@@ -398,7 +415,7 @@ def c09(run):
         "coap_block.c is reached only with the compared length known to be within (for equality look-ups: equal to) the length of both operands, so a "
         "look-up cannot match a state whose key differs in length or was compared over the wrong length (R-CMP-BOUND). (2) 'the sender's release callback runs exactly once'. For every function taking a release_func parameter, on "
         "every path with release_func not known NULL the callback is called exactly once, handed to a callee with the same obligation, or stored "
-        "into an lg_xmit that is linked into session->lg_xmit or deleted; coap_block_delete_lg_xmit calls it exactly once (R-RELEASE-ONCE). A reassembled request body is handed to the application from a block with the More bit set only on paths that found the record's no_more_seen flag set (R-BODY-COMPLETE; the Q-Block1 arm violates this and is a known finding). When a response handler expires a transfer record and hands the response up, the application's token is back in the received PDU (or was compared) on every path (application token clause). Every More bit computed for a body being sent equals `length - offset > bytes in this block` (R-BLK-MORE, enumerated), and in the function that selects its own block size the record's requested chunk_size is read only after the record was re-synchronised (one block size). A label counter (a field whose only writers are ++: the context's ETag counter) is stepped before its value is taken (R-FRESH-LABEL).")
+        "into an lg_xmit that is linked into session->lg_xmit or deleted; coap_block_delete_lg_xmit calls it exactly once (R-RELEASE-ONCE). A reassembled request body is handed to the application from a block with the More bit set only on paths that found the record's no_more_seen flag set (R-BODY-COMPLETE; the Q-Block1 arm violates this and is a known finding). When a response handler expires a transfer record and hands the response up, the application's token is back in the received PDU (or was compared) on every path (application token clause). Every More bit computed for a body being sent equals `length - offset > bytes in this block` (R-BLK-MORE, enumerated), and in the function that selects its own block size the record's requested chunk_size is read only after the record was re-synchronised (one block size). A label counter (a field whose only writers are ++: the context's ETag counter) is stepped before its value is taken (R-FRESH-LABEL). The predicate that decides whether the receive record is made at send time is tested with the opposite polarity where the record is made late (record exists); the record's size field follows every change of the selected size (size field).")
 
 
 def c20(run):
@@ -408,6 +425,7 @@ def c20(run):
     r_attrflags.run(run, P)
     from rules import r_blkmore
     r_blkmore.run(run, P)
+    r_blkmore.run_size_field(run, P)
     r_outbound.run(run, P)
     from rules import r_cmpbound
     n = r_cmpbound.run(run, P, only={'match', 'coap_print_wellknown_lkd', 'coap_find_attr'})
@@ -428,6 +446,7 @@ def c19(run):
     r_route.run(run, P)
     r_route.run_psk(run, P)
     r_route.run_event_reset(run, P)
+    r_route.run_sni_cache(run, P)
     from rules import r_delayq
     r_delayq.run(run, P)
     from rules import r_cnt
@@ -441,7 +460,7 @@ def c19(run):
         "gnutls_handshake's result and do_gnutls_handshake returns 1 only there; coap_session_connected and record I/O in the back end happen only "
         "after that; coap_send_pdu transmits only with session->state == ESTABLISHED (R-ROUTE). Credential verdict: in the PSK callbacks the result of "
         "the application's identity / hint validation callback is never replaced before it is acted on, and a success return is only reached with it "
-        "known non-NULL (R-PSK-VERDICT). Where the identity / hint callback is known installed a success return is reached only after it was called; a node taken off a delay queue is deleted only after its PDU went to the transport or, being Confirmable, to coap_handle_nack (R-DELAYQ-NACK). Every back-end function that acts on session->dtls_event assigned the idle value to it earlier in the same call (stale event). The loop that sends what was queued during the handshake raises con_active only on the arm that is below NSTART and sends the message (R-CNT-CON a-d): a count raised for a message that stays queued blocks everything behind it for good.")
+        "known non-NULL (R-PSK-VERDICT). Where the identity / hint callback is known installed a success return is reached only after it was called; a node taken off a delay queue is deleted only after its PDU went to the transport or, being Confirmable, to coap_handle_nack (R-DELAYQ-NACK). Every back-end function that acts on session->dtls_event assigned the idle value to it earlier in the same call (stale event). The loop that sends what was queued during the handshake raises con_active only on the arm that is below NSTART and sends the message (R-CNT-CON a-d): a count raised for a message that stays queued blocks everything behind it for good. A cached server name is compared as a whole string (SNI cache).")
 
 
 def c14(run):
@@ -454,6 +473,8 @@ def c14(run):
     r_oscsplit.run_flag_reach(run, P)
     r_oscsplit.run_match_acc(run, P)
     r_oscsplit.run_outer_discard(run, P)
+    from rules import r_saverestore
+    r_saverestore.run(run, P)
     from rules import r_oscflags
     r_oscflags.run(run, P)
     from rules import r_osccbor
@@ -467,7 +488,7 @@ def c14(run):
         "reached only with the result of cose_encrypt0_decrypt known > 0 (R-OSC-SPLIT); (3) the association that carries the request's AAD, "
         "nonce and partial IV to the response is filled, refreshed and read back field-for-field from the COSE object's fields of the same role "
         "(R-OSC-ROLE, roles computed from the two record types); (4) every local flag that steers an RFC 8613 step in the protect / unprotect "
-        "functions can have its non-initial value where it is tested (reaching definitions). The option decoder examines all eight bits of the flag byte (R-OSC-FLAGS). The CBOR head writer produces the RFC 8949 form at the boundary values of every form (R-OSC-CBOR). While the iterator walks the received PDU every class E option number is on the discard arm (outer discard). With the exchange's association found, the recipient context is not taken from the session (association is the source).")
+        "functions can have its non-initial value where it is tested (reaching definitions). The option decoder examines all eight bits of the flag byte (R-OSC-FLAGS). The CBOR head writer produces the RFC 8949 form at the boundary values of every form (R-OSC-CBOR). While the iterator walks the received PDU every class E option number is on the discard arm (outer discard). With the exchange's association found, the recipient context is not taken from the session (association is the source). A field parked for the duration of a call is restored on every path that overwrote it (R-SAVE-RESTORE: session->oscore_encryption).")
 
 
 def c02(run):
@@ -490,6 +511,7 @@ def c02(run):
     r_stream.run_needed_len(run, P)
     r_stream.run_unit_complete(run, P)
     r_stream.run_phase_local(run, P)
+    r_stream.run_empty_unit(run, P)
     r_parsegate.run(run, P)
     r_fixup.run_stale(run, P)
     from rules import r_cmpbound
@@ -508,6 +530,7 @@ def c02(run):
     r_allocnull.run_nullret(run, P)
     from rules import r_pairargs
     r_pairargs.run(run, P)
+    r_pairargs.run_token_identity(run, P)
     run.min_instances('R-RANGE', 12)
     run.min_instances('R-STREAM-CAP', 4)
     run.min_instances('R-PARSE-GATE', 15)
@@ -525,7 +548,7 @@ def c02(run):
         "leads to rejection (R-PARSE-GATE); no pointer into a PDU buffer is used after a call that may reallocate it, library-wide (R-FIXUP); every "
         "memcmp/strncmp over a length-delimited string is bounded by that string's own length (R-CMP-BOUND); a persistent element count that bounds a "
         "fixed-size array (block reassembly tracker) only grows behind one common capacity guard (R-COUNT-CAP); a local copy of an owned pointer "
-        "field is not used after a call that is handed the owning object and may free that field (R-STALE-COPY). A function that was given the capacity of the buffer it fills compares against it before every variable-size copy (R-WRITE-CAP, NDEBUG build); the measuring and the filling pass of the two-pass string builders count and store the same number of bytes for every byte value (R-SIZE-FILL); a call that is handed X.length is handed X.s (R-PAIR-ARGS); the receive limit, once our own maximum is set, uses no peer-settable session field (R-STREAM-CAP own limit). Header fields (code, type) of a PDU parameter are wire-derived for R-RANGE, and the interval engine knows the unsigned range idiom (size_t)v - K1 < K; a stream position is never set to the size of the piece just stored and a needed header length is final when compared with what has arrived (R-STREAM-ADV). Separators of the query reconstruction are decided by segment count (R-SIZE-FILL separators); a maybe-NULL call result does not reach a dereferencing libc routine untested (R-NULL-RET); token[K] extension bytes are read only where the length is known > K (R-RANGE). After a record field was handed to a destructor every path assigns the field again or disposes of its holder (R-DANGLING-FIELD; array slots and locals declined, teardown helpers computed).")
+        "field is not used after a call that is handed the owning object and may free that field (R-STALE-COPY). A function that was given the capacity of the buffer it fills compares against it before every variable-size copy (R-WRITE-CAP, NDEBUG build); the measuring and the filling pass of the two-pass string builders count and store the same number of bytes for every byte value (R-SIZE-FILL); a call that is handed X.length is handed X.s (R-PAIR-ARGS); the receive limit, once our own maximum is set, uses no peer-settable session field (R-STREAM-CAP own limit). Header fields (code, type) of a PDU parameter are wire-derived for R-RANGE, and the interval engine knows the unsigned range idiom (size_t)v - K1 < K; a stream position is never set to the size of the piece just stored and a needed header length is final when compared with what has arrived (R-STREAM-ADV). Separators of the query reconstruction are decided by segment count (R-SIZE-FILL separators); a maybe-NULL call result does not reach a dereferencing libc routine untested (R-NULL-RET); token[K] extension bytes are read only where the length is known > K (R-RANGE). After a record field was handed to a destructor every path assigns the field again or disposes of its holder (R-DANGLING-FIELD; array slots and locals declined, teardown helpers computed). Token identity is decided on actual_token, for every token length (R-PAIR-ARGS token identity).")
 
 
 def c07(run):
@@ -535,6 +558,8 @@ def c07(run):
     from rules import r_width
     r_width.run_c(run, P)        # the 'none yet' sentinels of the duplicate filter (last_con_mid / last_ack_mid) stay outside the mid space
     r_response.run_async_pending(run, P)
+    from rules import r_pairargs
+    r_pairargs.run_token_identity(run, P)    # the request a response retires is found by its token, whatever the token's length
     from rules import r_ownnode
     r_ownnode.run_queue_key(run, P)      # an ACK / RST / duplicate retires only the request of its own session and message id: no other request loses its retransmission
     run.min_instances('R-RESP', 4)
@@ -560,6 +585,8 @@ def c11(run):
     r_observe.run_delete_key(run, P)
     r_observe.run_delete_all(run, P)
     r_observe.run_fail_count(run, P)
+    from rules import r_pairargs
+    r_pairargs.run_token_identity(run, P)
     from rules import r_finderkey
     r_finderkey.run(run, P)
     run.assumptions = ASSUME_COMMON + ["freshness / ordering of Observe values, 'the last state is eventually notified', NSTART back-pressure and every deregistration route other than "
@@ -570,7 +597,7 @@ def c11(run):
         "notification is made Non-confirmable only below COAP_OBS_MAX_NON consecutive ones (or NON_ALWAYS / the final 4.04) and the counter is reset / "
         "incremented to match the chosen type before the transmission (R-OBS-CON, coap_notify_observers); a Reset that matches a queued message reaches "
         "coap_cancel(), which removes the observer (R-OBS-RST, coap_dispatch); an observer skipped before its notification was handed to the transmit path is marked "
-        "dirty so that the partially-dirty pass visits it again (R-OBS-DIRTY, coap_notify_observers). The subscription found by cache key is deleted by its own token (R-OBS-REPLACE). coap_delete_observer() is given a looked-at subscription's token only with a session known to be that subscription's (R-OBS-RST whose observer). The function that drops a lost session's observers visits every element of the list (delete all). A failed notification is counted before the count is compared with the limit (failure count); a per-session finder returns only elements of the session it was asked for (R-FINDER-KEY).")
+        "dirty so that the partially-dirty pass visits it again (R-OBS-DIRTY, coap_notify_observers). The subscription found by cache key is deleted by its own token (R-OBS-REPLACE). coap_delete_observer() is given a looked-at subscription's token only with a session known to be that subscription's (R-OBS-RST whose observer). The function that drops a lost session's observers visits every element of the list (delete all). A failed notification is counted before the count is compared with the limit (failure count); a per-session finder returns only elements of the session it was asked for (R-FINDER-KEY). Token identity is decided on actual_token, for every token length (R-PAIR-ARGS token identity).")
 
 
 PROPS = {
